@@ -45,7 +45,15 @@ def _ir_string_funcs(f: Func) -> Set[str]:
     return out
 
 
-def _is_strof(e: ast.AST, helpers: Set[str]) -> bool:
+def _is_strof(e: ast.AST, helpers: Set[str], f: Optional[Func] = None, _depth: int = 0) -> bool:
+    # a local bound to a printed name:  key = f"div_{sanitize_str(str(e))}" ... D[key]
+    if isinstance(e, ast.Name) and f is not None and _depth < 2:
+        vals = [k.value for k in f.body_nodes() if isinstance(k, ast.Assign) and len(k.targets) == 1 and isinstance(k.targets[0], ast.Name) and k.targets[0].id == e.id]
+        return bool(vals) and any(_is_strof(v, helpers, f, _depth + 1) for v in vals)
+    if isinstance(e, ast.JoinedStr):
+        return any(isinstance(v, ast.FormattedValue) and _is_strof(v.value, helpers, f, _depth) for v in e.values)
+    if isinstance(e, ast.Call) and isinstance(e.func, ast.Name) and e.func.id == "sanitize_str" and e.args:
+        return _is_strof(e.args[0], helpers, f, _depth)
     if isinstance(e, ast.Call):
         if dotted(e.func) == "str" and e.args:
             return True
@@ -69,9 +77,12 @@ def nameconf_sites(ix, scope_prefixes: Tuple[str, ...]):
                     if isinstance(l, ast.Constant) or isinstance(r, ast.Constant):
                         continue
                     yield f, n, ast.unparse(n)
-            if isinstance(n, ast.Subscript) and _is_strof(n.slice, helpers):
+            if isinstance(n, ast.Subscript) and _is_strof(n.slice, helpers, f):
                 yield f, n, ast.unparse(n)
-            if isinstance(n, ast.Call) and isinstance(n.func, ast.Attribute) and n.func.attr in ("get", "setdefault", "pop") and n.args and _is_strof(n.args[0], helpers):
+            if (isinstance(n, ast.Compare) and len(n.ops) == 1 and isinstance(n.ops[0], (ast.In, ast.NotIn)) and isinstance(n.left, ast.Name)
+                    and (dotted(n.comparators[0]) or "").startswith("self.") and _is_strof(n.left, helpers, f)):
+                yield f, n, ast.unparse(n)
+            if isinstance(n, ast.Call) and isinstance(n.func, ast.Attribute) and n.func.attr in ("get", "setdefault", "pop") and n.args and _is_strof(n.args[0], helpers, f):
                 yield f, n, ast.unparse(n)
             if isinstance(n, ast.Call) and last_name(n) in ("match_pattern", "_replace_pats"):
                 for kw in n.keywords:
@@ -111,7 +122,7 @@ def rule_nameconf(ctx, prop: str) -> RuleResult:
         else:
             res.ob(False)
             res.add(Finding("NAMECONF", f.file, node.lineno, f.qualname, cons, "identity decided by printed name: " + why))
-    res.floor = 5 if prop == "C12" else 6
+    res.floor = 5 if prop == "C12" else (0 if prop == "C05" else 6)
     return res
 
 
@@ -319,4 +330,50 @@ def rule_divaccount(ctx, prop: str) -> RuleResult:
                         f"the constant is counted {'twice' if kx == 'C' else 'wrongly'} — e.g. (4*io + ii - 1) / 4 with ii in [1,5) becomes io - 1")
             )
     res.floor = 3
+    return res
+
+
+def rule_factstate(ctx, prop: str) -> RuleResult:
+    """`simplify` turns the condition of an `if` into a fact that it applies throughout the
+    branch.  That is sound for index variables (immutable in the branch) but not for
+    configuration fields, which the branch — or a procedure it calls — may write.
+    `DoSimplify.add_fact` must not record a fact whose expression reads configuration
+    state (or the class must invalidate such facts at every WriteConfig and Call)."""
+    ix = ctx.ix
+    res = RuleResult("FACTSTATE")
+    c = ix.module(S).cls("DoSimplify")
+    af = c.methods.get("add_fact")
+    if af is None:
+        raise AnalysisError("anchor vanished: DoSimplify.add_fact")
+    res.analysed.append(f"{S}:DoSimplify.add_fact")
+    res.instances += 1
+    res.nontrivial += 1
+    first_store = min((k.lineno for k in af.body_nodes() if isinstance(k, ast.Assign) and isinstance(k.targets[0], ast.Subscript) and "facts" in ast.unparse(k.targets[0].value)), default=None)
+    if first_store is None:
+        raise AnalysisError("anchor vanished: the fact store of DoSimplify.add_fact")
+    # (a) a guard that leaves add_fact before the store when the expression reads configuration
+    guarded = False
+    for k in af.body_nodes():
+        if isinstance(k, ast.If) and k.lineno < first_store and any(isinstance(x, ast.Return) for x in k.body):
+            t = ast.unparse(k.test)
+            names = {x.func.id for x in ast.walk(k.test) if isinstance(x, ast.Call) and isinstance(x.func, ast.Name)}
+            helper_mentions = any("ReadConfig" in ast.unparse(h.node) for q, h in ix.module(S).funcs.items() if q.startswith("DoSimplify.add_fact.") and h.node.name in names)
+            if "ReadConfig" in t or helper_mentions:
+                guarded = True
+    # (b) or invalidation at WriteConfig / Call in map_s
+    ms = c.methods.get("map_s")
+    invalidates = False
+    if ms is not None:
+        for k in ms.body_nodes():
+            if isinstance(k, ast.If) and "WriteConfig" in ast.unparse(k.test) and any("facts" in ast.unparse(x) and isinstance(x, (ast.Delete, ast.Call, ast.Assign)) for b in k.body for x in ast.walk(b)):
+                invalidates = True
+    ok = guarded or invalidates
+    res.ob(ok)
+    res.sample(f"DoSimplify: facts about configuration reads are not recorded ({guarded}) or are invalidated at writes ({invalidates})")
+    if not ok:
+        res.add(
+            Finding("FACTSTATE", S, af.lineno, "DoSimplify.add_fact", "config-fact",
+                    "simplify records `Cfg.a == 0` as a fact for the whole branch and never invalidates it: after `Cfg.a = 1` in the branch, `y[Cfg.a]` is rewritten to `y[0]`")
+        )
+    res.floor = 1
     return res
